@@ -1,7 +1,7 @@
 (* The case language interpreter: one case (an s-expression) in, one canonical result line out.
    The same function is evaluated in-kernel (vm_compute) and extracted to OCaml. *)
 From Coq Require Import Strings.String.
-From Iso Require Import Model.Base Model.Sexp Model.Padding Model.Encoding Model.Prefix Model.Network.
+From Iso Require Import Model.Base Model.Sexp Model.Padding Model.Encoding Model.Prefix Model.Network Model.Bitmap.
 
 Definition S' (s : string) : bytes := list_byte_of_string s.
 
@@ -177,6 +177,75 @@ Definition run_hdr_read (args : list sexp) : bytes :=
   | _ => bad
   end.
 
+(* bitmap: (bm B auto enc pref (op...)) ; one reply per op joined by " | "; a panic anywhere is the whole result *)
+Definition bm_op (s : bmspec) (st : outcome (bytes * list bytes)) (op : sexp) : outcome (bytes * list bytes) :=
+  do (data, out) <- st;
+  match op with
+  | SList [Atom name; arg] =>
+      if bytes_eqb name (S' "set") then
+        match as_int arg with
+        | Some n => do d <- bm_set s data n; Ok (d, show_hex d :: out)
+        | None => Err bad
+        end
+      else if bytes_eqb name (S' "isset") then
+        match as_int arg with
+        | Some n => Ok (data, show_bool (bm_isset data n) :: out)
+        | None => Err bad
+        end
+      else if bytes_eqb name (S' "unpack") then
+        match as_hex arg with
+        | Some input =>
+            match bm_unpack s data input with
+            | (d, Ok r) => Ok (d, (S' "ok " ++ show_hex d ++ sp ++ show_int r) :: out)
+            | (d, Err _) => Ok (d, S' "err" :: out)
+            | (_, Panic p) => Panic p
+            | (_, OutOfFuel) => OutOfFuel
+            end
+        | None => Err bad
+        end
+      else if bytes_eqb name (S' "setbytes") then
+        match as_hex arg with
+        | Some d => Ok (d, S' "ok" :: out)
+        | None => Err bad
+        end
+      else Err bad
+  | SList [Atom name] =>
+      if bytes_eqb name (S' "len") then Ok (data, show_int (zlen data * 8) :: out)
+      else if bytes_eqb name (S' "pack") then
+        match bm_pack s data with
+        | Ok w => Ok (data, (S' "ok " ++ show_hex w) :: out)
+        | Err _ => Ok (data, S' "err" :: out)
+        | Panic p => Panic p
+        | OutOfFuel => OutOfFuel
+        end
+      else if bytes_eqb name (S' "reset") then Ok (bm_new s, S' "ok" :: out)
+      else if bytes_eqb name (S' "bytes") then Ok (data, show_hex data :: out)
+      else Err bad
+  | _ => Err bad
+  end.
+
+Definition parse_bmspec (b a e p : sexp) : option bmspec :=
+  match as_int b, as_bool a, parse_encoder e, parse_prefixer p with
+  | Some b, Some a, Some e, Some p => Some {| bm_len := b; bm_auto := a; bm_enc := e; bm_pref := p |}
+  | _, _, _, _ => None
+  end.
+
+Definition run_bm (args : list sexp) : bytes :=
+  match args with
+  | [b; a; e; p; SList ops] =>
+      match parse_bmspec b a e p with
+      | Some s =>
+          match fold_left (bm_op s) ops (Ok (bm_new s, [])) with
+          | Ok (_, out) => join (S' " | ") (frev out)
+          | Err _ => bad
+          | Panic _ => S' "panic"
+          | OutOfFuel => S' "outoffuel"
+          end
+      | None => bad
+      end
+  | _ => bad
+  end.
+
 Definition dispatch (s : sexp) : bytes :=
   match s with
   | SList (Atom name :: args) =>
@@ -186,6 +255,7 @@ Definition dispatch (s : sexp) : bytes :=
       else if bytes_eqb name (S' "enc.dec") then run_enc_dec args
       else if bytes_eqb name (S' "pref.enc") then run_pref_enc args
       else if bytes_eqb name (S' "pref.dec") then run_pref_dec args
+      else if bytes_eqb name (S' "bm") then run_bm args
       else if bytes_eqb name (S' "hdr.set") then run_hdr_set args
       else if bytes_eqb name (S' "hdr.write") then run_hdr_write args
       else if bytes_eqb name (S' "hdr.read") then run_hdr_read args
